@@ -48,7 +48,7 @@ class Cfg:
     def __init__(self, naming="distinct", method_form=0.3, members=None, called_lambdas=True, odd_selectors=False,
                  containers=True, ifexp=True, keywords_in_called=True, first=True, lists=True, dict_attr=True,
                  comprehension=False, count_fn=True, first_on_seq=True, genexp=False,
-                 captures=False, helpers=False, record_ctor=False, free_scalar=False, first_of_packages=True, higher_order=False, kwonly_in_called=False, dict_method_keys=False):
+                 captures=False, helpers=False, record_ctor=False, free_scalar=False, first_of_packages=True, higher_order=False, kwonly_in_called=False, dict_method_keys=False, duplicate_keys=True):
         self.naming = naming
         self.method_form = method_form
         self.members = members or MEMBERS
@@ -71,6 +71,7 @@ class Cfg:
         self.higher_order = higher_order
         self.kwonly_in_called = kwonly_in_called
         self.dict_method_keys = dict_method_keys
+        self.duplicate_keys = duplicate_keys
         self.free_scalar = free_scalar
 
 
@@ -195,7 +196,12 @@ def gen(cx: Ctx, env, ty, depth) -> str:
         p = pick_path(cx, env, ty) if cx.chance(2) else None
         if p:
             return p
-        return "{" + ", ".join(f"{key!r}: {gen(cx, env, t, depth - 1)}" for key, t in ty[1]) + "}"
+        items = [f"{key!r}: {gen(cx, env, t, depth - 1)}" for key, t in ty[1]]
+        if cx.cfg.duplicate_keys and cx.chance(1):
+            # a key written twice: as in python, the LAST value is the one that counts
+            key, t = ty[1][0]
+            items.insert(0, f"{key!r}: {gen(cx, env, t, 0)}")
+        return "{" + ", ".join(items) + "}"
     if k == "D":  # record built with a dataclass / NamedTuple constructor (sugar), read by attribute
         p = pick_path(cx, env, ty) if cx.chance(2) else None
         if p:
